@@ -413,6 +413,7 @@ func (s *clientSocket) onConnect(_ *parser.PacketHeader, decode parser.Decode) {
 	s.state = clientSocketConnStateConnected
 	vhook.Event("csock.state", "s", s, "site", "onconnect", "to", int(s.state))
 	s.stateMu.Unlock()
+	vhook.Yield("csocket.onConnect.connected", s)
 
 	s.debug.Log("Socket connected")
 
@@ -893,7 +894,7 @@ func (s *clientSocket) _sendBuffers(volatile, forceSend bool, ackID *uint64, buf
 				}
 			}
 			s.sendBuffer = append(s.sendBuffer, buffers...)
-			vhook.Event("sendbuf.append", "s", s, "id", ackID, "n", len(buffers), "buf", s.sendBuffer)
+			vhook.Event("sendbuf.append", "s", s, "id", ackID, "n", len(buffers), "buf", s.sendBuffer, "pk", packets)
 			s.sendBufferMu.Unlock()
 		} else {
 			vhook.Event("csock.drop", "s", s, "pk", packets)
